@@ -2,12 +2,20 @@
 
 package stream
 
-import "github.com/conduitio/conduit/pkg/foundation/cerrors"
+import (
+	"context"
+	"sync"
+
+	"github.com/conduitio/conduit-commons/opencdc"
+	"github.com/conduitio/conduit/pkg/foundation/cerrors"
+)
 
 func init() {
 	verifRegister("VerifV1Pipeline", VerifV1Pipeline)
 	verifRegister("VerifV1Shapes", VerifV1Shapes)
 	verifRegister("VerifV1Proc", VerifV1Proc)
+	verifRegister("VerifV1FanoutOrder", VerifV1FanoutOrder)
+	verifRegister("VerifV1BatchedAcks", VerifV1BatchedAcks)
 }
 
 func sDLQChoice() (int, int) {
@@ -51,6 +59,92 @@ func VerifV1Pipeline() {
 }
 
 var errVerifNone = cerrors.New("none")
+
+// VerifV1BatchedAcks (C09): a destination whose ack responses cover several
+// records at once (every record written so far), whatever the acker node has
+// queued at that moment: all records end acknowledged and the pipeline stops.
+func VerifV1BatchedAcks() {
+	K := verifParam("K", 3)
+	p := buildPipeline(sCfg{K: K, M: 1, dlqSize: 0, dlqTh: 0, stopAfter: K, ackOnly: true, batchAcks: true})
+	p.start()
+	select {
+	case <-p.w.src.served:
+	case <-p.ctx.Done():
+	}
+	stopErr := p.src.Stop(p.ctx, nil)
+	err := p.wait()
+	p.w.checkEnd(err == nil && stopErr == nil)
+	verifAssert(err == nil, "c09-batched-acks-broke-the-pipeline")
+	p.w.mu.Lock()
+	verifAssert(len(p.w.src.acked) == K, "c09-record-left-unacknowledged")
+	p.w.mu.Unlock()
+	verifObserve("acked", K)
+	verifCover("clean")
+}
+
+// VerifV1FanoutOrder: the real FanoutNode alone, fed K messages of either
+// operation kind, M consumers that receive and acknowledge, under pre-emptive
+// schedules: every consumer receives the messages in the order they were fed,
+// and the original message is acknowledged only after every clone was.
+func VerifV1FanoutOrder() {
+	K := verifParam("K", 2)
+	M := verifParam("M", 2)
+	in := make(chan *Message)
+	fan := &FanoutNode{Name: "fanout"}
+	fan.Sub(in)
+	outs := make([]<-chan *Message, M)
+	for m := range outs {
+		outs[m] = fan.Pub()
+	}
+	ctx, cancel := context.WithCancel(context.Background())
+	defer cancel()
+	var mu sync.Mutex
+	got := make([][]int, M)
+	ackedClones := make([]int, K)
+	var wg sync.WaitGroup
+	for m := 0; m < M; m++ {
+		wg.Add(1)
+		go func(m int) {
+			defer wg.Done()
+			for msg := range outs[m] {
+				i := sIdx(msg.Record.Position)
+				mu.Lock()
+				if n := len(got[m]); n > 0 {
+					verifAssert(got[m][n-1] < i, "c05-source-order-at-destination")
+				}
+				got[m] = append(got[m], i)
+				ackedClones[i]++
+				mu.Unlock()
+				_ = msg.Ack()
+			}
+		}(m)
+	}
+	runDone := make(chan error, 1)
+	go func() { runDone <- fan.Run(ctx) }()
+	for i := 0; i < K; i++ {
+		op := opencdc.OperationCreate
+		if verifBool("snapshot") {
+			op = opencdc.OperationSnapshot
+		}
+		msg := &Message{Ctx: ctx, Record: opencdc.Record{Position: sPos(i), Operation: op}}
+		i := i
+		msg.RegisterAckHandler(func(*Message) error {
+			mu.Lock()
+			verifAssert(ackedClones[i] == M, "c01-ack-before-confirmation")
+			mu.Unlock()
+			return nil
+		})
+		in <- msg
+	}
+	close(in)
+	err := <-runDone
+	wg.Wait()
+	verifAssert(err == nil, "c05-healthy-pipeline-stopped-with-error")
+	for m := 0; m < M; m++ {
+		verifAssert(len(got[m]) == K, "c05-record-missing-at-destination")
+	}
+	verifCover("clean")
+}
 
 // VerifV1Shapes: malformed destination replies in the default engine.
 func VerifV1Shapes() {
